@@ -225,6 +225,44 @@ def run(ctx) -> None:
                     "output": ex["output"],
                 },
             )
+    # ---- the documented Bad example is flagged EVERY time it occurs: two identical copies of each example in one run (whatever a
+    # check remembers about what it already reported must not make it skip the same example in another file)
+    bad_exs = [e for e in extract.examples_linted() if e["kind"] == "Bad" and e["flagged"]]
+    with core.scratch("rv-c17twice-") as td:
+        (td / "pyproject.toml").write_text("")
+        names2: dict[str, dict] = {}
+        for e in bad_exs:
+            for copy_ in ("a", "b"):
+                n2 = f"twice_{e['code']}_{e['index']}_{copy_}.py"
+                (td / n2).write_text(extract.auto_prelude(e["src"]) + e["src"])
+                names2[n2] = e
+        order = sorted(names2)
+        nb2 = 6
+        batches2 = [order[i::nb2] for i in range(nb2)]  # the a and b copies of one example land in the same batch (adjacent names, even stride)
+        batches2 = [sorted(set(b) | {n[:-4] + "b.py" for n in b if n.endswith("a.py")} | {n[:-4] + "a.py" for n in b if n.endswith("b.py")}) for b in batches2]
+        with ThreadPoolExecutor(6) as ex2:
+            outs2 = list(ex2.map(lambda b: core.refurb_cli([*b, "--enable-all", "--quiet"], cwd=td, timeout=900), batches2))
+    seen2: set[str] = set()
+    for b, (rc2, out2, err2) in zip(batches2, outs2):
+        diags2, other2 = core.parse_plain(out2)
+        if err2.strip() or other2:
+            res.notes.append(f"a batch of doubled examples was refused as a whole ({(other2 or [err2.strip()])[0][:120]}): skipped")
+            continue
+        flagged2 = {(x["file"], x["code"]) for x in diags2}
+        for n2 in b:
+            if n2 in seen2:
+                continue
+            seen2.add(n2)
+            e = names2[n2]
+            res.case(("example-twice", n2))
+            res.bump("examples_doubled")
+            if (n2, e["code"]) not in flagged2:
+                res.violate(
+                    f"the documented Bad example #{e['index']} of {e['prefix']}{e['code']} is not flagged in {n2} when an identical copy of it is checked in the same run",
+                    {"kind": "example-twice", "code": e["code"]},
+                    {"files": {n2[:-4] + "a.py": extract.auto_prelude(e["src"]) + e["src"], n2[:-4] + "b.py": "(the same text)"}, "argv": [n2[:-4] + "a.py", n2[:-4] + "b.py", "--enable-all", "--quiet"],
+                     "reported_for_the_pair": sorted(f"{f}: FURB{c}" for f, c in flagged2 if f[:-4] == n2[:-4] or f[:-5] == n2[:-5]), "required": f"{e['prefix']}{e['code']} in both files"},
+                )
     exs = extract.examples_linted()
     if exs:
         res.sample({"example": exs[0]["src"], "code": exs[0]["code"], "kind": exs[0]["kind"], "flagged": exs[0]["flagged"]})
